@@ -4,6 +4,8 @@ import VlsModel.Gen.FnOnchainTx
 import VlsModel.Gen.FnTxUtilC08
 import VlsModel.Gen.FnDerive
 import VlsModel.Gen.FnNodeWallet
+import VlsModel.Gen.FnApproverC08
+import VlsModel.Gen.FnOnchainWrap
 import VlsModel.Lemmas.NodeWalletFn
 import VlsModel.Model.Wallet
 import VlsModel.Lemmas.FnGen
@@ -541,5 +543,159 @@ theorem C08_fn_allowlist_contains (style : Style) (allow : List Wallet.Allowable
         | .panic => .error .panic := allowlist_contains_eq style allow path s
 
 end NodeWallet
+
+/-! ## Round 9: `vls-protocol-signer/src/approver.rs` (`Gen/FnApproverC08.lean`) and the `OnchainValidator` wrapper
+
+`Approve::handle_proposed_onchain` (the default method every approver inherits) = `Onchain.flowOnchain`; the approver
+stack's `approve_onchain` = `Onchain.Approver.approveOnchain`.  The `Result<(), ValidationError>` of
+`Node::check_onchain_tx` is read through the declared view `Option<Option<Vec<usize>>>` (normalisation rules
+`hpo_*` of `translate/fn_targets/C0809.b0809.json`): `None` = `Ok(())`, `Some(Some(indices))` =
+`UnknownDestinations(_, indices)`, `Some(None)` = any other kind. -/
+section Approver
+open VlsModel.Gen.FnApproverC08
+
+/-- the declared view of what `Node::check_onchain_tx` returns -/
+def checkView : Res → Rs.M (Option (Option (List Nat)))
+  | .ok _ => .ok none
+  | .unknown l => .ok (some (some l))
+  | .err _ => .ok (some none)
+  | .panic => .error .panic
+
+/-- outcome of the generated `handle_proposed_onchain`, given what the check said (the `Status` only carries the message of
+    the validation error: its tag is the one of the check's result) -/
+def flowOut (res : Res) : Rs.M Bool → FlowRes
+  | .ok true => .signed
+  | .ok false => .declined
+  | .error (.err s) =>
+    if s = "Status::failed_precondition" then (match res with | .err t => .refused t | _ => .panic) else .panic
+  | .error _ => .panic
+
+/-- the answer the approver is asked for: only on `UnknownDestinations`, and exactly about the reported indices -/
+def askedOf (res : Res) (approve : List Nat → Bool) : Bool :=
+  match res with
+  | .unknown l => approve l
+  | _ => false
+
+/-- **`Approve::handle_proposed_onchain` = `Onchain.flowOnchain`**: for every policy, velocity state, time and request, and
+    every approver (a function of the unknown indices it is shown): `Ok(())` ⇒ sign without asking; `UnknownDestinations` ⇒
+    the approver's answer about exactly those indices decides between signing and `Ok(false)`; every other validation
+    error ⇒ `Err(failed_precondition)`; a panic of the check propagates. -/
+theorem C08_fn_handle_proposed_onchain (p : Policy) (vc : Velocity.VC) (now : Nat) (r : Req) (approve : List Nat → Bool) :
+    flowOut (checkOnchain p vc now r).2
+        (Approve.handle_proposed_onchain
+          (ext_Node_check_onchain_tx := fun (_ : Unit) (_ : Unit) _ (_ : List Unit) (_ : List (Option (Unit × List (List Nat)))) (_ : List Unit) =>
+              checkView (checkOnchain p vc now r).2)
+          (ext_approve_onchain := fun (_ : Unit) _ _ idx => approve idx)
+          () () () [] [] [] [])
+      = (flowOnchain p vc now r (askedOf (checkOnchain p vc now r).2 approve)).2 := by
+  unfold Approve.handle_proposed_onchain flowOnchain
+  rcases h : checkOnchain p vc now r with ⟨vc', res⟩
+  cases res with
+  | ok nb => simp [checkView, flowOut, bind, Except.bind, pure, Except.pure]
+  | unknown l =>
+    by_cases ha : approve l = true
+    · simp [checkView, flowOut, askedOf, ha, bind, Except.bind, pure, Except.pure]
+    · have ha' : approve l = false := by simpa using ha
+      simp [checkView, flowOut, askedOf, ha', bind, Except.bind, pure, Except.pure]
+  | err t => simp [checkView, flowOut, Rs.fail, bind, Except.bind]
+  | panic => simp [checkView, flowOut, bind, Except.bind]
+
+/-- the approver is not consulted at all unless the check reported unknown destinations -/
+theorem C08_fn_handle_proposed_onchain_not_asked (p : Policy) (vc : Velocity.VC) (now : Nat) (r : Req)
+    (a₁ a₂ : Unit → Unit → List Unit → List Nat → Bool) (h : ∀ l, (checkOnchain p vc now r).2 ≠ .unknown l) :
+    Approve.handle_proposed_onchain
+        (ext_Node_check_onchain_tx := fun (_ : Unit) (_ : Unit) _ (_ : List Unit) (_ : List (Option (Unit × List (List Nat)))) (_ : List Unit) =>
+            checkView (checkOnchain p vc now r).2)
+        (ext_approve_onchain := a₁) () () () [] [] [] []
+      = Approve.handle_proposed_onchain
+        (ext_Node_check_onchain_tx := fun (_ : Unit) (_ : Unit) _ (_ : List Unit) (_ : List (Option (Unit × List (List Nat)))) (_ : List Unit) =>
+            checkView (checkOnchain p vc now r).2)
+        (ext_approve_onchain := a₂) () () () [] [] [] [] := by
+  unfold Approve.handle_proposed_onchain
+  rcases h' : checkOnchain p vc now r with ⟨vc', res⟩
+  cases res with
+  | unknown l => exact absurd (by rw [h']) (h l)
+  | ok nb => simp [checkView, bind, Except.bind]
+  | err t => simp [checkView, bind, Except.bind]
+  | panic => simp [checkView, bind, Except.bind]
+
+variable {Tx O I P ρ' : Type} [DecidableEq Tx]
+
+theorem C08_fn_positive_approve_onchain (tx : Tx) (po : List O) (idx : List Nat) :
+    PositiveApprover.approve_onchain () tx po idx = (Approver.positive.approveOnchain tx).2 := rfl
+
+theorem C08_fn_warning_positive_approve_onchain (tx : Tx) (po : List O) (idx : List Nat) :
+    WarningPositiveApprover.approve_onchain () tx po idx = (Approver.warningPositive.approveOnchain tx).2 := rfl
+
+theorem C08_fn_negative_approve_onchain (tx : Tx) (po : List O) (idx : List Nat) :
+    NegativeApprover.approve_onchain () tx po idx = (Approver.negative.approveOnchain tx).2 := rfl
+
+/-- the delegate's `approve_onchain` as the model computes it -/
+def delegateE : Approver Tx → Tx → List O → List Nat → Bool := fun d tx _ _ => (d.approveOnchain tx).2
+
+/-- `VelocityApprover::approve_onchain` is the delegate's answer (no velocity control on on-chain requests) -/
+theorem C08_fn_velocity_approve_onchain (d : Approver Tx) (tx : Tx) (po : List O) (idx : List Nat) :
+    VelocityApprover.approve_onchain (ext_delegate_approve_onchain := delegateE) ⟨d⟩ tx po idx
+      = ((Approver.velocity d).approveOnchain tx).2 := rfl
+
+/-- a memoized approval of the generated enum, as the model sees it -/
+def memoOf : Approval I P Tx → Memo Tx
+  | .Invoice _ => .invoice
+  | .KeySend _ _ => .keysend
+  | .Onchain t => .onchain t
+
+/-- what the loop body of `MemoApprover::approve_onchain` does with one memoized approval -/
+def memoStep (r : ρ') (tx : Tx) : Memo Tx → Rs.Flow Unit ρ'
+  | .onchain t => if t == tx then .ret r else .next ()
+  | _ => .next ()
+
+theorem memo_loop (r : ρ') (tx : Tx) (f : Unit → Approval I P Tx → Rs.M (Rs.Flow Unit ρ'))
+    (hf : ∀ a, f () a = .ok (memoStep r tx (memoOf a))) (l : List (Approval I P Tx)) :
+    Rs.loopM l () f = .ok (if memoHit (l.map memoOf) tx then .inr r else .inl ()) := by
+  induction l with
+  | nil => simp [Rs.loopM, memoHit, pure, Except.pure]
+  | cons a rest ih =>
+    cases a with
+    | Invoice i => simpa [Rs.loopM, hf, memoStep, memoHit, memoOf, bind, Except.bind, pure, Except.pure] using ih
+    | KeySend h n => simpa [Rs.loopM, hf, memoStep, memoHit, memoOf, bind, Except.bind, pure, Except.pure] using ih
+    | Onchain t =>
+      by_cases ht : t = tx
+      · simp [Rs.loopM, hf, memoStep, memoHit, memoOf, ht, bind, Except.bind, pure, Except.pure]
+      · simpa [Rs.loopM, hf, memoStep, memoHit, memoOf, ht, bind, Except.bind, pure, Except.pure] using ih
+
+/-- **`MemoApprover::approve_onchain` = `Approver.memo … .approveOnchain`**, for every memo list: a memoized
+    `Approval::Onchain(t)` is consumed only by the *same* transaction (`approved_tx == *tx` on the whole transaction),
+    otherwise the delegate decides; the memo list is empty afterwards in every case. -/
+theorem C08_fn_memo_approve_onchain (d : Approver Tx) (appr : List (Approval I P Tx)) (tx : Tx) (po : List O) (idx : List Nat) :
+    MemoApprover.approve_onchain (ext_delegate_approve_onchain := delegateE) ⟨d, appr⟩ tx po idx
+      = .ok (⟨d, []⟩, ((Approver.memo (appr.map memoOf) d).approveOnchain tx).2) := by
+  unfold MemoApprover.approve_onchain
+  dsimp only
+  rw [memo_loop (⟨d, []⟩, true) tx _ (by intro a; cases a <;> simp only [memoOf, memoStep] <;> first | rfl | (split <;> rfl)) appr]
+  by_cases hh : memoHit (appr.map memoOf) tx = true
+  · simp [Approver.approveOnchain, hh, pure, Except.pure, bind, Except.bind]
+  · have hh' : memoHit (appr.map memoOf) tx = false := by simpa using hh
+    simp [Approver.approveOnchain, hh', delegateE, pure, Except.pure, bind, Except.bind]
+
+/-- non-vacuity: a memo for transaction 7 approves 7 and nothing else under a declining delegate; afterwards it is spent -/
+example : ((Approver.memo [Memo.invoice, .onchain 7] .negative).approveOnchain 7).2 = true
+    ∧ ((Approver.memo [Memo.invoice, .onchain 7] .negative).approveOnchain 8).2 = false
+    ∧ ((((Approver.memo [Memo.onchain 7] .negative).approveOnchain 7).1).approveOnchain 7).2 = false := by decide
+
+end Approver
+
+section OnchainWrap
+open VlsModel.Gen.FnOnchainWrap
+
+/-- `OnchainValidator::validate_onchain_tx` is the inner validator's `validate_onchain_tx` on the same arguments (the
+    external is passed **by name**: a wrapper that forwards to another method of the inner validator no longer
+    elaborates) -/
+theorem C08_fn_onchain_validate_onchain_tx {V W S T D : Type}
+    (F : V → W → List (Option S) → T → List Bool → List Nat → List D → Nat → Rs.M Nat)
+    (v : V) (w : W) (ch : List (Option S)) (tx : T) (sf : List Bool) (vals : List Nat) (op : List D) (weight : Nat) :
+    OnchainValidator.validate_onchain_tx (ext_inner_validate_onchain_tx := F) ⟨v⟩ w ch tx sf vals op weight
+      = F v w ch tx sf vals op weight := rfl
+
+end OnchainWrap
 
 end VlsModel.Props.C08Fn
